@@ -17,7 +17,12 @@ def run(ctx):
     netprops.run_scenarios(ctx, res, netprops.scenario_streams, ctx.budget(110, 24000, 350), "streams")
     # "through receive, iteration or a callback": the same scenarios with setcallback at a random moment of the stream
     netprops.run_scenarios(ctx, res, netprops.scenario_streams, ctx.budget(90, 18000, 300), "streams-cb", with_callbacks=True)
+    # "… or leakage into any other channel": concurrent creators under line-level pre-emption (two conversations must never
+    # end up on one channel object)
+    netprops.run_scenarios(ctx, res, netprops.scenario_ids, ctx.budget(25, 1500, 300), "ids-preempt", preempt=6)
     netprops.process_level_streams(ctx, res)
+    # the same over a socket gateway (SocketIO.read assembles a frame from many recv() pieces)
+    netprops.process_level_streams(ctx, res, nconv=3, spec="socket-installvia")
     if ctx.thorough:
         netprops.run_scenarios(ctx, res, netprops.scenario_streams, 300, "streams-preempt", preempt=3)
         for spec in ("popen//execmodel=main_thread_only", "popen//python=/venv/bin/python"):
